@@ -55,13 +55,16 @@ FLOORS = {"argument_snapshot": 3000, "probe_compared": 250,
 SHARDS = {"quick": 16, "thorough": 64}
 TIMEOUT = {"quick": 900, "thorough": 6 * 3600}
 FAMILIES = ["place", "chain", "minimise", "bitfield", "objects", "route",
-            "minimise_related", "route_related", "machine_reuse"]
-RELATED = ("minimise_related", "route_related", "machine_reuse")
+            "minimise_related", "route_related", "machine_reuse",
+            "place_related"]
+RELATED = ("minimise_related", "route_related", "machine_reuse",
+           "place_related")
 
 
 def plan(tier):
     n = 320 if tier == "quick" else 25000
-    return [(f, n // 8 if f in ("route_related", "machine_reuse") else n)
+    return [(f, n // 8 if f in ("route_related", "machine_reuse",
+                                "place_related") else n)
             for f in FAMILIES]
 
 
@@ -254,6 +257,30 @@ def related_machines(rng):
     return version(kinds[0]), version(kinds[1])
 
 
+def related_placements(rng):
+    """(earlier, later): two placements by the same placer on machines of
+    the same (multi-board) size - 17 to 40 chips across, beyond every
+    single-board special case; the earlier one places a few vertices and so
+    stops part-way through whatever order the placer walks the chips in, the
+    later one reaches further."""
+    w = rng.randint(17, 40)
+    h = rng.choice([w, w, rng.randint(17, 40), rng.randint(2, 8)])
+    per = rng.choice([1, 1, 2])
+    placer = rng.choice(["hilbert", "hilbert", "rcm", "breadth_first",
+                         "sequential", "rand"])
+
+    def problem(nv):
+        nets_ = [(v, [(v + 1) % nv], 1.0) for v in range(0, nv, 3)]
+        return dict(
+            machine=dict(w=w, h=h, res={"Cores": per, "SDRAM": 10}, exc={},
+                         dead_chips=[], dead_links=[]),
+            vertices=[(v, {"Cores": 1}) for v in range(nv)], nets=nets_,
+            constraints=[], placer=placer, easy=False,
+            kw=dict(seed=rng.randrange(1 << 30)) if placer == "rand" else {})
+    n1 = rng.randint(3, 60)
+    return problem(n1), problem(n1 + rng.randint(1, 200))
+
+
 def gen(cls, idx, rng, tier):
     history = []
     fams = [f for f in FAMILIES if f not in RELATED]
@@ -272,6 +299,14 @@ def gen(cls, idx, rng, tier):
         history.insert(rng.randrange(len(history) + 1),
                        (("route", first), False))
         probe = ("route", second)
+    elif cls == "place_related":
+        first, second = related_placements(rng)
+        history = history[:3]
+        at = rng.randrange(len(history) + 1)
+        history.insert(at, (("place", first), False))
+        if rng.random() < .5:
+            history.insert(at, (("place", first), False))
+        probe = ("place", second)
     elif cls == "route_related":
         small, big = related_routes(rng)
         history = history[:4]
@@ -498,12 +533,30 @@ def execute(desc, ctx=None, mutate=False, seed=0, scramble=False):
             # the application's one Machine object of this size, edited in
             # place to describe the machine as it is now
             kept = _KEPT_MACHINES.setdefault((m["w"], m["h"]), machine)
-            if kept is not machine:
+            if kept is not machine and case["seed"] % 2:
                 kept.chip_resources = machine.chip_resources
                 kept.chip_resource_exceptions = \
                     machine.chip_resource_exceptions
                 kept.dead_chips = machine.dead_chips
                 kept.dead_links = machine.dead_links
+                machine = kept
+            elif kept is not machine:
+                # ... or edited through the containers it already holds
+                # (machine.dead_links.add(...), .discard(...))
+                if ctx is not None:
+                    ctx.hit("machine_edited_through_its_containers")
+                for mine, new in ((kept.chip_resources,
+                                   machine.chip_resources),
+                                  (kept.chip_resource_exceptions,
+                                   machine.chip_resource_exceptions)):
+                    mine.clear()
+                    mine.update(new)
+                for mine, new in ((kept.dead_chips, machine.dead_chips),
+                                  (kept.dead_links, machine.dead_links)):
+                    for it in list(mine - new):
+                        mine.discard(it)
+                    for it in new - mine:
+                        mine.add(it)
                 machine = kept
         vr = par.build_vertices(case["vertices"])
         nets = par.build_nets(case["nets"])
